@@ -74,3 +74,152 @@ def run(ctx):
         "Static comparison of PyTeal's op and field tables (extracted from the syntax tree) with an independent AVM "
         "reference table; version/field gating, immediate provenance, final sweep, placeholder and label rules."
     )
+
+
+# ------------------------------------------------------------------------------------------
+from rules.emitcommon import get_sites  # noqa: E402
+from sa.astutil import allowed_interval, try_const, INF  # noqa: E402
+from sa.pe import alts, show, is_param  # noqa: E402
+
+
+class _G:
+    def __init__(self, expr, pol):
+        self.expr, self.polarity = expr, pol
+
+    def text(self):
+        return ("" if self.polarity else "not ") + u(self.expr)
+
+
+def _global_int_consts(model):
+    out = {}
+    for m in model.modules.values():
+        for k, v in m.assigns.items():
+            ok, c = try_const(model, m, v)
+            if ok and isinstance(c, int) and not isinstance(c, bool) and k.isupper():
+                out.setdefault(k, c)
+    return out
+
+
+def _interval(ctx, site, expr):
+    """integer interval the immediate `expr` is confined to at the emission site"""
+    env = _global_int_consts(ctx.model)
+    ok, c = try_const(ctx.model, site.em.func.module, expr, env)
+    if ok and isinstance(c, int) and not isinstance(c, bool):
+        return c, c, ["literal"]
+    guards = [_G(g, p) for g, p in site.em.guards]
+    # knowledge about Python ints that are immediates: type(x) is int holds on this path
+    lo, hi, used = allowed_interval(ctx.model, site.em.func.module, guards, u(expr), env)
+    return lo, hi, used
+
+
+# immediates that are `<Int expr>.value`: Int's constructor guarantees 0 <= value < 2**64
+INT_VALUE_NONNEG = "Int.value is a Python int in [0, 2**64) by Int.__init__ (checked under C13 R13.2)"
+
+
+def r04_3_field_gating(ctx):
+    ctx.rule("R04.3", "every field-name immediate is version-gated on that field's own minimum version before emission")
+    S = get_sites(ctx.model)
+    for site in S.class_sites + S.factory_sites:
+        for op in site.ops:
+            if op.startswith("?"):
+                continue
+            sig = S.sig(op)
+            if sig is None:
+                continue
+            for i, (imm, kind) in enumerate(zip(site.em.immediates, sig["imm"])):
+                if not (isinstance(kind, str) and kind.startswith("field:")):
+                    continue
+                construct = f"{site.construct}:{op}:field"
+                t = u(imm)
+                # (a) symbolic enum member: <x>.arg_name  -> verifyFieldVersion(<x>.arg_name, <x>.min_version, options.version)
+                if isinstance(imm, ast.Attribute) and imm.attr == "arg_name":
+                    base = u(imm.value)
+                    gated = False
+                    for v in site.em.version_checks:
+                        if v.short == "verifyFieldVersion" and len(v.call.args) >= 3:
+                            a0, a1, a2 = v.call.args[:3]
+                            if u(a0) == t and u(a1) == base + ".min_version" and u(a2).endswith("options.version"):
+                                gated = True
+                    ctx.check(gated, "R04.3", construct, f"field immediate {show(site.em.res, imm)} of '{S.teal_name(op)}' is emitted without verifyFieldVersion({base}.arg_name, {base}.min_version, options.version) before it", site.where, fact={"imm": t})
+                    continue
+                # (b) literal field name
+                ok, c = try_const(ctx.model, site.em.func.module, imm)
+                if ok and isinstance(c, str):
+                    table = avm.LITERAL_FIELD_OPS.get(S.teal_name(op))
+                    if table is None or c not in table:
+                        ctx.uncheck(f"{construct}: literal field '{c}' has no reference row")
+                        continue
+                    fv = max(table[c][1], avm.MIN_PROGRAM_VERSION)
+                    opv = max(sig["v"], avm.MIN_PROGRAM_VERSION)
+                    gate = opv
+                    for ev in site.em.path.teal.events:
+                        if ev.short in ("verifyProgramVersion", "verifyFieldVersion"):
+                            for a in list(ev.call.args) + [k.value for k in ev.call.keywords]:
+                                okv, cv = try_const(ctx.model, ev.func.module, a)
+                                if okv and isinstance(cv, int) and not isinstance(cv, bool):
+                                    gate = max(gate, cv)
+                    ctx.check(gate >= fv, "R04.3", f"{construct}:{c}", f"field '{c}' exists from version {fv} but '{S.teal_name(op)} {c}' is emitted whenever the version is >= {gate} (no field version check on the path)", site.where, fact={"field": c, "field_v": fv, "gate": gate})
+                    continue
+                if site.level == "factory":
+                    continue  # bound enum member: gate checked at class level with the symbolic field
+                ctx.uncheck(f"{construct}: field immediate {t} not recognised")
+    ctx.require_min("R04.3", 40)
+
+
+# classes whose `int`/`byte` immediate is a symbolic name, not a number; covered by other rules
+STRING_IMMEDIATE_CLASSES = {
+    "EnumInt": "named integer constant (TxnType / OnComplete): only built from literals inside the package (C13 who-may-call) and resolved by the assembler or C12's table",
+    "Tmpl": "template placeholder, validated by valid_tmpl (C13)",
+}
+
+
+def r04_4_immediates(ctx):
+    ctx.rule("R04.4", "every integer immediate is a literal in range or is confined to the immediate's encoding range by checks that dominate the emission")
+    S = get_sites(ctx.model)
+    seen = set()
+    for site in S.class_sites + S.factory_sites:
+        for op in site.ops:
+            if op.startswith("?"):
+                continue
+            sig = S.sig(op)
+            if sig is None:
+                continue
+            for i, (imm, kind) in enumerate(zip(site.em.immediates, sig["imm"])):
+                if not isinstance(kind, tuple):
+                    continue
+                _k, lo_need, hi_need = kind
+                construct = f"{site.construct}:{op}:imm{i}"
+                key = (construct, ast.dump(imm), tuple((ast.dump(g), p) for g, p in site.em.guards))
+                if key in seen:
+                    continue
+                seen.add(key)
+                text = show(site.em.res, imm)
+                if isinstance(imm, ast.Constant) and imm.value is None:
+                    continue  # artefact of an infeasible constructor/__teal__ path combination
+                if site.cls.name in STRING_IMMEDIATE_CLASSES:
+                    ctx.ok("R04.4", construct, {"justified": STRING_IMMEDIATE_CLASSES[site.cls.name]}, site.where)
+                    continue
+                if text in ("self", "$p_slot", "$p_subroutine") or text.endswith(".slot") or "ScratchSlot" in text:
+                    # a placeholder object resolved later by assignSlot / resolveSubroutine (R04.6, C10)
+                    continue
+                lo, hi, used = _interval(ctx, site, imm)
+                if lo == -INF and text.endswith(".value"):
+                    lo = 0
+                    ctx.assume(INT_VALUE_NONNEG)
+                ok = lo >= lo_need and hi <= hi_need
+                ctx.check(ok, "R04.4", construct, f"immediate {text} of '{S.teal_name(op)}' must lie in [{lo_need}, {hi_need}] but the checks on the path only confine it to [{lo}, {hi}]", site.where, fact={"imm": text, "interval": [str(lo), str(hi)], "guards": used[:4]})
+    ctx.require_min("R04.4", 30)
+
+
+_run0 = run
+
+
+def run(ctx):  # noqa: F811
+    r04_1_op_table(ctx)
+    r04_2_field_tables(ctx)
+    r04_3_field_gating(ctx)
+    r04_4_immediates(ctx)
+    return (
+        "Static comparison of PyTeal's op and field tables (extracted from the syntax tree) with an independent AVM "
+        "reference table; version/field gating, immediate provenance, final sweep, placeholder and label rules."
+    )
